@@ -36,3 +36,60 @@ Example chunks_roundtrip_nonvacuous :
   /\ u64_to_chunks_checked 32 18446744073709551615 = Some [4294967295; 4294967295].
 Proof. split; [vm_compute; tauto|]. split; [reflexivity|]. split; reflexivity. Qed.
 Print Assumptions chunks_roundtrip_nonvacuous.
+
+(** ElGamal in the exponent over ANY commutative ring of scalars [F] and ANY [F]-module [G]
+    (the Section variables below are universally quantified once the section is closed;
+    [Print Assumptions] lists them as section variables, not as axioms). *)
+From Coq Require Import Ring.
+From CB Require Import Crypto.ElGamalExp.
+Section C12_ElGamal.
+  Variable F : Type.
+  Variables (f0 f1 : F) (fadd fmul fsub : F -> F -> F) (fopp : F -> F).
+  Hypothesis Fring : ring_theory f0 f1 fadd fmul fsub fopp (@eq F).
+  Variable G : Type.
+  Variables (gzero : G) (gadd : G -> G -> G) (gopp : G -> G) (smul : F -> G -> G).
+  Hypothesis gadd_assoc : forall a b c, gadd a (gadd b c) = gadd (gadd a b) c.
+  Hypothesis gadd_comm : forall a b, gadd a b = gadd b a.
+  Hypothesis gadd_0_l : forall a, gadd gzero a = a.
+  Hypothesis gadd_opp : forall a, gadd a (gopp a) = gzero.
+  Hypothesis smul_add_l : forall x y a, smul (fadd x y) a = gadd (smul x a) (smul y a).
+  Hypothesis smul_add_r : forall x a b, smul x (gadd a b) = gadd (smul x a) (smul x b).
+  Hypothesis smul_mul : forall x y a, smul (fmul x y) a = smul x (smul y a).
+  Variables (g h : G).
+  Variable bound : N.
+  Variable dlog : G -> N.
+  Hypothesis dlog_spec : forall x, x < bound -> dlog (smul (f_of_N F f0 f1 fadd fmul x) h) = x.
+  Hypothesis bound_ge : 2 ^ 32 <= bound.
+
+  Let enc := encrypt F G gadd smul g.
+  Let dec := decrypt F G gadd gopp smul.
+  Let pk := pk_of F G smul g.
+
+  Theorem elgamal_encrypt_decrypt : forall sk m k, dec sk (enc (pk sk) m k) = m.
+  Proof. intros; eapply encrypt_decrypt; eassumption. Qed.
+  Print Assumptions elgamal_encrypt_decrypt.
+
+  Theorem elgamal_aggregate_is_sum : forall sk x y k k',
+    dec sk (combine G gadd (encrypt_exp F G gadd smul g h (pk sk) x k) (encrypt_exp F G gadd smul g h (pk sk) y k'))
+    = smul (fadd x y) h.
+  Proof. intros; eapply aggregate_sum; eassumption. Qed.
+  Print Assumptions elgamal_aggregate_is_sum.
+
+  Theorem amount_encrypt_decrypt : forall sk x klo khi, x < W64 ->
+    exists e, encrypt_amount F f0 f1 fadd fmul G gadd smul g h (pk sk) x klo khi = Some e
+           /\ decrypt_amount F G gadd gopp smul dlog sk e = Some x.
+  Proof. intros; eapply encrypt_decrypt_amount; eassumption. Qed.
+  Print Assumptions amount_encrypt_decrypt.
+End C12_ElGamal.
+
+Theorem transfer_exceeding_balance_impossible : forall s a, s < a -> transfer_plain s a = None.
+Proof. exact transfer_none_if_exceeds. Qed.
+Print Assumptions transfer_exceeding_balance_impossible.
+
+Theorem transfer_conserves_value : forall s a, s < W64 -> a <= s ->
+  exists r t, transfer_plain s a = Some (r, t)
+    /\ chunks_to_u64_checked 32 r = Some (s - a)
+    /\ chunks_to_u64_checked 32 t = Some a
+    /\ s - a + a = s.
+Proof. exact transfer_conserves. Qed.
+Print Assumptions transfer_conserves_value.
